@@ -303,6 +303,15 @@ Section GroupBy.
     - rewrite <- H. reflexivity.
   Qed.
 
+  Lemma group_in_filter xs g : In g (group_by key xs) ->
+    snd g = filter (fun x => key x =? fst g) xs /\ snd g <> [].
+  Proof.
+    intros Hg. destruct g as [k l]. cbn [fst snd].
+    pose proof (kv_in_get k l _ (group_by_sorted xs) Hg) as E. rewrite group_by_get in E.
+    destruct (filter (fun x0 => key x0 =? k) xs) eqn:F; [discriminate|]. inversion E; subst l.
+    split; [reflexivity|discriminate].
+  Qed.
+
   Lemma group_by_in_key xs g x : In g (group_by key xs) -> In x (snd g) -> key x = fst g /\ In x xs.
   Proof.
     intros Hg Hx. destruct g as [k l]. cbn in *.
